@@ -56,7 +56,7 @@ ASSUMPTIONS = [
     'format gives an instruction of the target entry; free-text anchors are user error',
     '#LINK targets are pages that the same project writes; anchors are box-entry anchors, ids present in the custom page content, or '
     'decimal entry addresses listed on the memory map linked to',
-    'classes on which skool2html aborts or is known to fail (F41-F46, see AVOID) are excluded by construction; their reproducers are in corpus/C16',
+    'classes on which skool2html is known to fail (F41, F45, see AVOID) are excluded by construction; their reproducers are in corpus/C16 (F42-F44 and F46 are repaired in /repo and generated again)',
     'with -w <subset> a link from a written page to a page kind that was not requested may resolve against the tree of the full run',
     'page/file paths configured in [Paths] are distinct (two pages configured to the same path is user error)',
     'a user-supplied #name on #R is honoured on entry pages and ignored on the single disassembly page (undocumented): landing on either the '
@@ -1331,5 +1331,5 @@ def known_class(sig, case):
 MANIFEST_ENTRY = {
     'technique': 'validity-predicate oracle (html.parser link/anchor scan of the written directory tree) over Hypothesis-generated skool+ref projects and skool2html command lines',
     'level_text': 'For each generated project the real skool2html.main is run in a scratch directory; every relative href/src of every written HTML file must name a written or copied file and an existing id, ids must be unique per file, every entry and instruction of every disassembly must have its anchor on the page where the documentation places it, operand links and target-tagged #R/#LINK links must land on the anchor of their target, and the "Writing" lines must match the tree without repeats; -w subsets and second runs into the same directory are checked as well.',
-    'level_note': 'Sampled inputs: 1-3 disassemblies of 1-6 small entries (thorough: plus the shipped Hungry Horace example over a blank image). Generated #R/#LINK targets are restricted to what the documentation allows (existing instruction addresses, declared @remote addresses, anchors that evaluate to the entry address or spell an existing id). Known classes F15/F28 (duplicate ids produced by the stock templates) are counted and excluded; F41-F46 are avoided by construction (flags in AVOID).',
+    'level_note': 'Sampled inputs: 1-3 disassemblies of 1-6 small entries (thorough: plus the shipped Hungry Horace example over a blank image). Generated #R/#LINK targets are restricted to what the documentation allows (existing instruction addresses, declared @remote addresses, anchors that evaluate to the entry address or spell an existing id). Known classes F15/F28 (duplicate ids produced by the stock templates) are counted and excluded; F41 and F45 are avoided by construction (flags in AVOID); F42-F44 and F46 are repaired in /repo and searched again.',
 }
